@@ -28,20 +28,42 @@ MANIFEST_ENTRY = {
             "Ptychography-style per-entry installation; theorems: add_constraint assigns exactly one entry, last writer wins for every "
             "history) and driven through those public paths before the object is read, with the predicate evaluated against the "
             "REQUESTED constraints; set_initial_probe is called 2-4 times on one probe model with different mean intensities "
-            "(theorems: requested weights never written, every re-initialisation exact), predicate after every call and after reset().",
+            "(theorems: requested weights never written, every re-initialisation exact), predicate after every call and after reset(). "
+            "Growth round 5: (a) ProbePixelated is modelled as a state machine WITH its validation branches (initial_probe_weights of the wrong "
+            "length, set_initial_probe with a conflicting roi_shape or a mean intensity <= 0 / -0.0, probe = a stack of the wrong shape, reset): "
+            "theorems probe_rejected_call_changes_nothing, probe_weights_last_accepted (the stored weights are the last ACCEPTED request for every "
+            "history of valid and rejected calls) and probe_ops_total (a valid re-initialisation after ANY such history is exact); the stream drives one "
+            "model through valid and rejected calls, an identically seeded twin through the valid calls only, compares error kind and state with the "
+            "Lean step from the same pre-state and the state with the twin bit for bit after every call, and evaluates the intensity / weight predicate "
+            "after every accepted set_initial_probe. (b) several live models of ONE class: a registry of per-instance dictionaries (BaseConstraints.__init__ "
+            "copies the class defaults) with theorems models_isolated, other_models_untouched, new_model_gets_defaults, constraints_any_history (last "
+            "writer wins for every history including rejected add_constraint calls, setters with an invalid key -- constraints_setter_rejected_prefix -- "
+            "resets to the class defaults and operations on other models); the stream builds 2-4 ObjectPixelated / ProbePixelated / tomography "
+            "ObjectVoxelwise models, configures any of them (valid and rejected calls), reads EVERY model and evaluates the predicate against that model's "
+            "own requests; the class-level default dictionaries are compared with a snapshot and with the defaults declared in the Lean model "
+            "(default_constraints_admissible). (c) raw arrays contain exact zeros of either sign, values exactly on the amplitude threshold, infinite "
+            "and 1e+-30 magnitudes (complex types), masks contain -0.0; all predicates are NaN-aware. (d) constrained reads in the MIDDLE of a "
+            "constraint history (configure, read, reconfigure, read), the reset-to-class-defaults assignment of reset_recon, reset() of the object. "
+            "(e) alternative entry point ObjectDIP.obj with an identity network. (f) the tomography dictionary (setter / add_hard_constraint, rejected "
+            "keys, python truthiness of the entries modelled in Lean: tomo_nonneg_dict).",
     "note": "Trusted: Lean kernel + propext/Classical.choice/Quot.sound; hand model validated by sampled correspondence only; "
             "IEEE rounding, torch abs/angle/exp/fft2/argsort are modelled not verified. Parseval for the model's O(N^2) dft2 is "
             "imported from Lemmas/PtychoOpsForward.lean (PtychoOps.energy_dft2, built by the C16 check). "
             "Gaussian/Butterworth filters are excluded (as in the quantifier). Known findings: complex objects with "
             "apply_fov_mask=True and a non-binary mask are not amplitude-idempotent; probe stacks whose Gram-Schmidt residual norm "
             "falls below the absolute clamp_min(1e-12) do not keep their intensities (both with machine-checked counterexamples "
-            "replayed on the real classes).",
+            "replayed on the real classes); ObjectDIP.forward hands the raw network output (times the mask) to the forward model, the hard "
+            "constraints are applied only by ObjectDIP.obj (finding object-dip-forward-unconstrained; ObjectDIP.obj itself is checked like "
+            "ObjectPixelated.obj). Not modelled: center_probe (Fourier-shift recentring), ProbeParametric / ProbeDIP (single-mode / network probes), "
+            "the column-shaped weight list [[w1],[w2]] that the length check lets through (the next set_initial_probe raises). In the probe state "
+            "machine the random phase ramps are inputs taken from an identically seeded model.",
     "technique": "Lean 4 proof (real-analysis lemmas, induction on the mode index) + model-vs-implementation correspondence",
 }
 RULE = ("one case = one constrained read of a model built from generated raw parameters; distinct non-trivial = distinct "
         "(stream, precision, object type / mode count, mask kind, apply_fov_mask, identical_slices, slice-count>1, "
         "baseline/positivity flags, correlation bucket, weights kind) with a non-constant raw array; for the history streams "
-        "(op-kind prefix of the constraint history / number of set_initial_probe calls, read-back, reset)")
+        "(op-kind prefix of the constraint history / number of set_initial_probe calls, read-back, reset); probe_ops: (precision, modes, "
+        "first four op kinds); registry: (class, object type, initial model count, first four op kinds), every read of a live model counts as one case")
 TRUSTED = ["torch.abs / angle / exp / clamp / mean / sum / sqrt / fft2(norm='ortho') / argsort(descending) semantics (modelled)",
            "numpy abs / vdot / fft2 as the independent oracle of the predicate"]
 ASSUMPTIONS = [
@@ -51,7 +73,14 @@ ASSUMPTIONS = [
     "32/64-bit real/complex; scalar inputs (mean intensity, baseline factor, shrinkage, slice thickness) as python / numpy / 0-d array / "
     "0-d tensor, weight / roi / sampling sequences as list / tuple / array / tensor; a torch probe stack keeps its own dtype, tolerances "
     "follow the narrower of configuration and input precision",
-    "raw parameters are finite (NaN/inf are outside the claim); magnitudes 1e-3..1e3 for objects, mode norms 0.1..10",
+    "raw parameters are not NaN; complex / pure-phase raw arrays contain magnitudes 1e-3..1e3 and, in 30% of the cases, exact zeros of either "
+    "sign, unit-modulus values, +-inf and 1e+-30 entries (the unchanged code returns finite admissible objects for all of them); potential raw "
+    "arrays are finite (an infinite potential has no baseline); mode norms 0.1..10",
+    "rejected calls of the probe history: weight lists of length 0, 1, n-1, n+1, 2n (not n); set_initial_probe with roi_shape (H, W+1) / (W, H) or "
+    "mean intensity 0.0 / -0.0 / negative; probe = stacks of shape (n+-1, H, W) / (n, H, W+1); add_constraint with an unknown key. Other invalid "
+    "inputs (scalars, strings, nested lists) are not generated",
+    "registry stream: all models of one case are of one class and are read at the end of the history; center_probe stays False; the class defaults "
+    "are the snapshot taken at the start of the run (before any model is built)",
     "Gaussian/Butterworth smoothing off (quantifier); with identical_slices=True only slice identity (and, for complex objects, amplitude <= 1) is evaluated",
     "Gram-Schmidt inputs: pairwise correlation <= 0.99, condition number <= 200, mode intensities pairwise >= 2% apart "
     "(torch.argsort is not stable: ties are outside the correspondence); residual norms far above the absolute 1e-12 clamp",
@@ -557,7 +586,7 @@ def check_object(ctx, drv, case, m, raw, cons, route, stream):
         okf, df = close(fwd, ref_f, PTOL[prec])
         if not okf:
             ctx.disagree("object-forward", small(case), cx_to_list(ref_f), cx_to_list(fwd), f"forward() patches differ from .obj: {df:.3g}")
-        if t == "complex" and float(np.abs(fwd).max()) > 1.0 + PTOL[prec]:
+        if t == "complex" and not float(np.abs(fwd).max()) <= 1.0 + PTOL[prec]:      # (a NaN amplitude is not "at most one")
             ctx.pred_fail("complex-amp-gt-one:forward", "amplitude of the patches handed to the forward model exceeds one", small(case),
                           float(np.abs(fwd).max()), "<= 1")
     if route == "dip_obj":
@@ -639,19 +668,19 @@ def check_object(ctx, drv, case, m, raw, cons, route, stream):
     if ident and not all(np.array_equal(impl[0], impl[s]) for s in range(S)):
         ctx.pred_fail(f"{t}-slices-differ", "identical_slices requested but slices differ", small(case),
                       float(np.max(np.abs(impl - impl[0]))), 0.0)
-    if t == "complex" and float(amp.max()) > 1.0 + ptol:
+    if t == "complex" and not float(amp.max()) <= 1.0 + ptol:
         ctx.pred_fail(f"complex-amp-gt-one:fov={fov}:mask={mcls}:identical={ident}", "complex object amplitude exceeds one",
                       small(case), float(amp.max()), "<= 1")
     if not ident:   # slice tying is only claimed to tie slices (quantifier)
         if t == "pure_phase":
             dev = float(np.max(np.abs(amp - 1.0)))
             ctx.stat_max(f"pure_phase:{prec}:max|amp-1|", dev)
-            if dev > ptol:
+            if not dev <= ptol:
                 ctx.pred_fail(f"pure_phase-amp-not-one:{'apply_fov_mask' if fov else 'nomask'}:{mcls}-mask",
                               "pure-phase object amplitude differs from one", small(case), float(amp.ravel()[np.argmax(np.abs(amp - 1.0))]), 1.0)
         didem = float(np.max(np.abs(amp2 - amp)))
         ctx.stat_max(f"{t}:{prec}:max|amp2-amp|" + (":nonbinary-mask" if mcls == "nonbinary" else ""), didem)
-        if didem > ptol:
+        if not didem <= ptol:
             ctx.pred_fail(f"{t}-amp-idempotence:{'apply_fov_mask' if fov else 'nomask'}:{mcls}-mask",
                           "re-applying the hard constraint to the constrained object changes its amplitude",
                           small(case), {"amp_once": amp.ravel()[np.argmax(np.abs(amp2 - amp))].item(),
@@ -742,13 +771,15 @@ def gs_predicate(ctx, case, vs, out, ptol, keysfx):
     worst = 0.0
     for i in range(n):
         for j in range(i + 1, n):
-            worst = max(worst, abs(np.vdot(out[i], out[j])) / (nn[i] * nn[j]))
+            v = abs(np.vdot(out[i], out[j])) / (nn[i] * nn[j])
+            if not v <= worst:          # NaN-aware maximum
+                worst = v
     ctx.stat_max(f"gs:{case['prec']}:max_normalised_inner_product", worst)
-    if worst > ptol:
+    if not worst <= ptol:                    # (NaN-aware: a NaN is a failure, never a pass)
         ctx.pred_fail(f"gs-not-orthogonal:n={n}{keysfx}", "orthogonalised probe modes are not mutually orthogonal", small(case), worst, 0.0)
     dI = float(np.max(np.abs(np.sort(Iout) - np.sort(Iin)) / np.sort(Iin)))
     ctx.stat_max(f"gs:{case['prec']}:max_rel_intensity_change", dI)
-    if dI > ptol:
+    if not dI <= ptol:
         ctx.pred_fail(f"gs-intensity-multiset:n={n}{keysfx}", "multiset of mode intensities changed by orthogonalisation", small(case),
                       np.sort(Iout)[::-1].tolist(), np.sort(Iin)[::-1].tolist())
     if n > 1 and not np.all(Iout[:-1] >= Iout[1:] * (1 - ptol)):
@@ -894,7 +925,7 @@ def run_weights(ctx, drv, case):
     tot = float(mode_I.sum())
     ctx.stat_max(f"weights:{prec}:rel_total_intensity_error", abs(tot - M) / M)
     wtol = max(ptol, 2e-6)   # the library stores the weights in float32 whatever the configured precision
-    if abs(tot - M) > wtol * M:
+    if not abs(tot - M) <= wtol * M:
         ctx.pred_fail(f"initial-probe-total-intensity:{route}", "total diffraction intensity of the initial probe differs from the mean intensity",
                       small(case), tot, M)
     if w is None:
@@ -903,7 +934,7 @@ def run_weights(ctx, drv, case):
         wreq = np.array(w, dtype=np.float64) / float(np.sum(w))
     dw = float(np.max(np.abs(mode_I / M - wreq)))
     ctx.stat_max(f"weights:{prec}:max_weight_error", dw)
-    if dw > wtol:
+    if not dw <= wtol:
         ctx.pred_fail(f"initial-probe-weights:{route}:{case['wkind']}", "relative mode intensities differ from the requested weights",
                       small(case), (mode_I / M).tolist(), wreq.tolist())
 
@@ -936,11 +967,11 @@ def run_pipeline(ctx, drv, case):
     ctx.count()
     ctx.dist[f"pipeline:probe:n={n}"] += 1
     ctx.stat_max("pipeline:rel_total_intensity_error", abs(mode_I.sum() - M) / M)
-    if abs(mode_I.sum() - M) > PTOL["f32"] * M:
+    if not abs(mode_I.sum() - M) <= PTOL["f32"] * M:
         ctx.pred_fail("initial-probe-total-intensity:pipeline", "total diffraction intensity of the initial probe differs from the "
                       "measured mean intensity", small(case), float(mode_I.sum()), M)
     wreq = np.array([1 - 0.02 * (n - 1)] + [0.02] * (n - 1))
-    if float(np.max(np.abs(mode_I / M - wreq))) > PTOL["f32"]:
+    if not float(np.max(np.abs(mode_I / M - wreq))) <= PTOL["f32"]:
         ctx.pred_fail("initial-probe-weights:pipeline", "relative mode intensities differ from the requested (default) weights",
                       small(case), (mode_I / M).tolist(), wreq.tolist())
     # the probe handed to the forward model (orthogonalisation on by default)
@@ -1189,7 +1220,7 @@ def probe_intensity_predicate(ctx, case, arr, M, wreq, label, wtol):
     mode_I = np.sum(np.abs(np.fft.fft2(arr, norm="ortho")) ** 2, axis=(1, 2))
     tot = float(mode_I.sum())
     ctx.stat_max(f"probe_history:{case['prec']}:rel_total_intensity_error", abs(tot - M) / M)
-    if abs(tot - M) > wtol * M:
+    if not abs(tot - M) <= wtol * M:
         ctx.pred_fail(f"initial-probe-total-intensity:history:{label}", "total diffraction intensity of the (re-)initialised probe "
                       "differs from the mean intensity of that call", small(case), tot, M)
     if mode_I.shape != np.shape(wreq):
@@ -1197,7 +1228,7 @@ def probe_intensity_predicate(ctx, case, arr, M, wreq, label, wtol):
                       small(case), (mode_I / M).tolist(), np.asarray(wreq).tolist())
         return
     dw = float(np.max(np.abs(mode_I / M - wreq)))
-    if dw > wtol:
+    if not dw <= wtol:
         ctx.pred_fail(f"initial-probe-weights:history:{label}", "relative mode intensities of the (re-)initialised probe differ from "
                       "the requested weights", small(case), (mode_I / M).tolist(), wreq.tolist())
 
